@@ -130,9 +130,47 @@ def run(index, tier="quick", seed=0) -> Result:
                 tiebreak.add(d_.name)
     if not tiebreak:
         raise AnalysisError("Polyhedron.is_inside: the lexicographic tie-break helper where(a != 0, a, where(b != 0, b, c)) is not recognised")
+    def _star_letters(call):
+        """sign_or(*[f(c) for c in triple]) where `triple = helper(...)` and the nested helper returns the three coordinate
+        differences as a display: the axes in the order of that display"""
+        if not (len(call.args) == 1 and isinstance(call.args[0], _ast.Starred)):
+            return None
+        v = call.args[0].value
+        if not (isinstance(v, (_ast.ListComp, _ast.GeneratorExp)) and len(v.generators) == 1 and not v.generators[0].ifs):
+            return None
+        src = v.generators[0].iter
+        local = {}
+        for x_ in _ast.walk(pfn.node):
+            if isinstance(x_, _ast.Assign) and len(x_.targets) == 1 and isinstance(x_.targets[0], _ast.Name):
+                local.setdefault(x_.targets[0].id, x_.value)
+        depth = 0
+        while isinstance(src, _ast.Name) and src.id in local and depth < 4:
+            src, depth = local[src.id], depth + 1
+        if isinstance(src, _ast.Call) and isinstance(src.func, _ast.Name):
+            helpers = [d for d in _ast.walk(pfn.node) if isinstance(d, _ast.FunctionDef) and d.name == src.func.id]
+            rets = [r.value for h in helpers for r in _ast.walk(h) if isinstance(r, _ast.Return) and r.value is not None]
+            if len(rets) == 1 and isinstance(rets[0], (_ast.Tuple, _ast.List)):
+                src = rets[0]
+                scope = helpers[0]
+            elif len(rets) == 1 and isinstance(rets[0], _ast.Call) and isinstance(rets[0].func, _ast.Name) and rets[0].func.id in ("tuple", "list") \
+                    and len(rets[0].args) == 1 and isinstance(rets[0].args[0], (_ast.GeneratorExp, _ast.ListComp)) and len(rets[0].args[0].generators) == 1:
+                # tuple(v[..., k] - p[..., k] for k in range(3)): component k is the coordinate k, in order
+                g_ = rets[0].args[0].generators[0]
+                if isinstance(g_.target, _ast.Name) and _ast.unparse(g_.iter).replace(" ", "") == "range(3)" and not g_.ifs:
+                    subs_ = [x_ for x_ in _ast.walk(rets[0].args[0].elt) if isinstance(x_, _ast.Subscript) and isinstance(x_.slice, _ast.Tuple) and x_.slice.elts]
+                    if subs_ and all(isinstance(x_.slice.elts[-1], _ast.Name) and x_.slice.elts[-1].id == g_.target.id for x_ in subs_):
+                        return ["x", "y", "z"]
+                return None
+            else:
+                return None
+        else:
+            scope = pfn.node
+        if isinstance(src, (_ast.Tuple, _ast.List)) and len(src.elts) == 3:
+            return [_axis_of(e_, scope) for e_ in src.elts]
+        return None
     for n_ in _ast.walk(pfn.node):
-        if isinstance(n_, _ast.Call) and isinstance(n_.func, _ast.Name) and n_.func.id in tiebreak and len(n_.args) == 3:
-            letters = [_axis_of(a, pfn.node) for a in n_.args]
+        if isinstance(n_, _ast.Call) and isinstance(n_.func, _ast.Name) and n_.func.id in tiebreak and (len(n_.args) == 3 or _star_letters(n_) is not None):
+            letters = _star_letters(n_) or [_axis_of(a, pfn.node) for a in n_.args]
             if None not in letters:
                 ncalls += 1
                 if letters != ["x", "y", "z"]:
